@@ -18,6 +18,9 @@ RULE = ("real functions built from generated source text: 0..6 parameters over i
         "parameters. mode main: `main(f, args=argv)(*extra, **extra)`; mode cf: a session of config_for(f, ignore_args=str|"
         "tuple|list, frozen=, **default overrides) requests (class identity labelled by first occurrence), then "
         "simple_parsing.parse(cfg_class, argv)(*call_args, **call_kwargs). argv: valid options/positionals in shuffled order "
+        "mode pair: two different callables (same __name__ or not) derived in mixed order through Partial[f]/config_for(f); "
+        "class targets: plain classes whose recorded __init__ has the generated signature, with class-level annotations that "
+        "agree with / differ from / replace the parameter annotations (field types and received values both judged); "
         "plus a malformed stream (bad value, unknown option, missing required, --help). Expected values = simple_parsing.parse "
         "of an equivalent hand-written dataclass. Non-trivial = the callable was reached; distinct by full case.")
 TRUSTED = ["CPython binds a call to a signature without *args/**kwargs as Model/Front.v bind_call does (every error is a TypeError)",
@@ -244,12 +247,51 @@ def _ignore_form(rng, names):
     return [rng.choice(["tuple"] * 9 + ["list"]), list(names)]
 
 
-def _gen_cf(rng, tier):
+# class targets: a class-level annotation for an attribute named like an __init__ parameter, of another type
+CANN_DIFFERENT = {"int": "List[int]", "float": "str", "str": "List[str]", "bool": "str", "list": "List[str]", "opt": "str",
+                  "enum": "str"}
+CANN_TAG = {"int": "AInt", "str": "AStr", "float": "AFloat"}
+
+
+def _assign_class_annotations(rng, params):
+    """cann = source of the class-level annotation (None: no such attribute); cann_kind = same | different | only
+    (only: the __init__ parameter itself is un-annotated, the class annotation is what types the field)."""
+    for p in params:
+        p["cann"], p["cann_kind"] = None, None
+        if p["ty"] in ("dc", "fdc"):
+            continue
+        if p["ty"] == "none":
+            if rng.random() < 0.6:
+                p["cann"], p["cann_kind"] = rng.choice(["int", "str", "float"]), "only"
+                if p["default"] is not None:
+                    p["default"] = {"int": "3", "str": "'k'", "float": "2.5"}[p["cann"]]
+            continue
+        r = rng.random()
+        if r < 0.3:
+            continue
+        if r < 0.55:
+            p["cann"], p["cann_kind"] = TYPES[p["ty"]][0], "same"
+        else:
+            p["cann"], p["cann_kind"] = CANN_DIFFERENT[p["ty"]], "different"
+
+
+def _ety(p, over):
+    if p["ty"] != "none":
+        return None
+    if p.get("cann"):
+        return {"int": "DInt", "str": "DStr", "float": "DFloat"}[p["cann"]]
+    return _dkind(_eff_default_src(p, over))
+
+
+def _gen_cf(rng, tier, klass=False):
     params = _gen_sig(rng, "cf", 0.1)
     # the typical use: a leading unannotated parameter the caller supplies ("params" of an optimizer)
     if rng.random() < 0.35 and params and params[0]["default"] is None and params[0]["kind"] != "ko":
         params[0]["ty"] = "none"
-    ignored = [p["name"] for p in params if (p["ty"] == "none" and p["default"] is None and rng.random() < 0.93)
+    if klass:
+        _assign_class_annotations(rng, params)
+    ignored = [p["name"] for p in params if (p["ty"] == "none" and p["default"] is None and not p.get("cann")
+                                             and rng.random() < 0.93)
                or rng.random() < 0.15]
     over = []
     if rng.random() < 0.2:
@@ -276,9 +318,13 @@ def _gen_cf(rng, tier):
     session = [r0, alt, json.loads(json.dumps(r0)), json.loads(json.dumps(alt))]
     if rng.random() < 0.3:
         session.append(json.loads(json.dumps(r0)))
+    if klass:
+        for r in session[1:]:
+            if r["ignore"] == ["absent"] and r["frozen"] is None and not r["over"] and rng.random() < 0.5:
+                r["via"] = "partial"      # Partial[Target] is config_for(Target)
     eff = _cf_kept(params, r0)
-    argv = _gen_argv(rng, [dict(p, default=_eff_default_src(p, over), ety=_dkind(_eff_default_src(p, over)) if p["ty"] == "none" else None)
-                           for p in eff], [], malformed=rng.random() < 0.1)
+    argv = _gen_argv(rng, [dict(p, default=_eff_default_src(p, over), ety=_ety(p, over)) for p in eff], [],
+                     malformed=rng.random() < (0.04 if klass else 0.1))
     call_pos, call_kw = [], []
     supply = {"int": "41", "float": "4.5", "str": "'cs'", "bool": "True", "list": "(6, 7)", "opt": "None", "enum": "Color.GREEN",
               "dc": "Cfg(n=1)", "fdc": "FCfg(m=1)", "none": "'given'"}
@@ -302,8 +348,11 @@ def _gen_cf(rng, tier):
             call_kw.append([p["name"], supply[p["ty"]]])  # the call site overrides a parsed field
     if rng.random() < 0.04:
         call_kw.append(["unknown_kw", "1"])
-    return dict(mode="cf", params=params, doc=rng.random() < 0.5, argv=argv, session=session, call_pos=call_pos,
+    case = dict(mode="cf", params=params, doc=rng.random() < 0.5, argv=argv, session=session, call_pos=call_pos,
                 call_kw=call_kw)
+    if klass:
+        case["klass"] = dict(extra=rng.random() < 0.4)
+    return case
 
 
 def _gen_pair(rng, tier):
@@ -385,13 +434,15 @@ def _inferred(p, over):
     (a bool default is a bool option), tuples element-wise."""
     if p["ty"] != "none":
         return None
+    if p.get("cann"):
+        return p["cann"]          # a class target: the class-level annotation types the un-annotated __init__ parameter
     return _kind_ann(_dkind(_eff_default_src(p, over)))
 
 
 def _cf_kept(params, req):
     ig = _ignore_names(req["ignore"])
     return [p for p in params if p["name"] not in ig
-            and not (p["ty"] == "none" and _eff_default_src(p, req["over"]) is None)]
+            and not (p["ty"] == "none" and _eff_default_src(p, req["over"]) is None and not p.get("cann"))]
 
 
 def gen(tier, seed):
@@ -442,6 +493,18 @@ def gen(tier, seed):
                               steps=[[0, "partial"], [0, "partial"], [1, "partial"], [1, "config_for"], [0, "config_for"]]))
     for _ in range(n_cf // 3):
         cases.append(_gen_pair(rng, tier))
+    # class targets (a plain class with an __init__), with class-level annotations that agree / disagree with the
+    # parameter annotations; the shape of seeded change C20-03 first
+    def PC(name, ty, default, cann, kind):
+        return dict(P(name, "pk", ty, default), cann=cann, cann_kind=kind)
+    model = [PC("hidden", "int", "3", "List[int]", "different"), PC("depth", "int", "2", None, None),
+             PC("name", "str", "'m'", "List[str]", "different")]
+    for argv in (["--hidden", "5"], ["--name", "zz", "--depth", "4"], []):
+        cases.append(dict(mode="cf", params=model, doc=False, argv=argv, klass=dict(extra=False), call_pos=[], call_kw=[],
+                          session=[dict(ignore=["absent"], frozen=None, over=[]),
+                                   dict(ignore=["absent"], frozen=None, over=[], via="partial")]))
+    for _ in range(n_cf // 3):
+        cases.append(_gen_cf(rng, tier, klass=True))
     return cases
 
 
@@ -480,8 +543,30 @@ def _doc_source(params):
     return "\n".join(lines)
 
 
+def _class_source(case, params):
+    """A plain class target: class-level annotations, an __init__ with the generated signature that remembers its bindings,
+    wrapped (functools.wraps, so inspect.signature still sees the real one) by a recorder of the raw args/kwargs."""
+    lines = [PRELUDE, "class _Impl:"]
+    if case["doc"]:
+        lines.append(_doc_source(params))
+    for p in params:
+        if p.get("cann"):
+            lines.append(f"    {p['name']}: {p['cann']}")
+    if case["klass"].get("extra"):
+        lines.append("    unrelated_attribute: int")
+    lines.append(f"    def __init__(self{', ' if params else ''}{_sig_source(params)}):")
+    if case["doc"]:
+        lines += ["    " + ln for ln in _doc_source(params).split("\n")]
+    lines.append("        self._bound = [" + ", ".join(f"({p['name']!r}, {p['name']})" for p in params) + "]")
+    lines += ["    _real_init = __init__", "    @functools.wraps(_real_init)", "    def __init__(self, *args, **kwargs):",
+              "        _HOOK(args, kwargs)", "        return _Impl._real_init(self, *args, **kwargs)", "_impl = _Impl"]
+    return "\n".join(lines) + "\n"
+
+
 def _fn_source(case, params=None):
     params = case["params"] if params is None else params
+    if case.get("klass"):
+        return _class_source(case, params)
     body = "    return [" + ", ".join(f"({p['name']!r}, {p['name']})" for p in params) + "]"
     src = [PRELUDE, f"def _impl({_sig_source(params)}):"]
     if case["doc"]:
@@ -537,10 +622,11 @@ def run_impl(cases):
     out = []
     for case in cases:
         reset_simple_parsing_state()
-        ns = {}
+        log = []
+        ns = {"__name__": "c20_generated",
+              "_HOOK": lambda a, k, log=log: log.append(([_j(x) for x in a], [[n, _j(v)] for n, v in k.items()]))}
         exec(compile(_fn_source(case), "<c20>", "exec", dont_inherit=True), ns)
         impl = ns["_impl"]
-        log = []
 
         def make_stub(impl=impl, log=log):
             @functools.wraps(impl)
@@ -549,7 +635,7 @@ def run_impl(cases):
                 return impl(*args, **kwargs)
             return f
 
-        f = make_stub()
+        f = impl if case.get("klass") else make_stub()
         params = case["params"]
         sig = inspect.signature(impl)
         defaults = {n: (None if p.default is inspect.Parameter.empty else _j(p.default)) for n, p in sig.parameters.items()}
@@ -569,7 +655,7 @@ def run_impl(cases):
             r = _short(r)
             if r[0] == "ok":
                 try:
-                    r = ["ok", [[k, _j(v)] for k, v in r[1]]]
+                    r = ["ok", [[k, _j(v)] for k, v in getattr(r[1], "_bound", r[1])]]
                 except Exception as e:  # the stub's return value was replaced by something else
                     r = ["raise", "NotTheStubResult:" + type(e).__name__]
             return r
@@ -590,7 +676,9 @@ def run_impl(cases):
             continue
 
         # ---- config_for ----
+        import simple_parsing.helpers.partial as partial_mod
         from simple_parsing.helpers.partial import config_for
+        partial_mod._autogenerated_config_classes.clear()
         classes, labels, session_obs, overs = [], [], [], []
         for req in case["session"]:
             kw = {}
@@ -606,7 +694,7 @@ def run_impl(cases):
             ov = {k: _ev(ns, s) for k, s in req["over"]}
             overs.append([[k, _j(v)] for k, v in ov.items()])
             kw.update(ov)
-            r = outcome_of(lambda: config_for(f, **kw))
+            r = outcome_of((lambda: partial_mod.Partial[f]) if req.get("via") == "partial" else (lambda: config_for(f, **kw)))
             if r[0] == "ok":
                 cls = r[1]
                 for i, c in enumerate(classes):
@@ -627,7 +715,7 @@ def run_impl(cases):
         expected = plain(kept, False, case["argv"])
         cp = [_ev(ns, s) for s in case["call_pos"]]
         ck = {k: _ev(ns, s) for k, s in case["call_kw"]}
-        base = dict(defaults=defaults, expected=expected, session=session_obs, overs=overs, inferred=[],
+        base = dict(defaults=defaults, expected=expected, session=session_obs, overs=overs, inferred=[], ftype_ok=[],
                     xpos=[_j(v) for v in cp], xkw=[[k, _j(v)] for k, v in ck.items()])
         cls0 = labels[0]
         if cls0 is None:
@@ -647,7 +735,14 @@ def run_impl(cases):
         overridden = [k for k, _ in req0["over"]]
         base["inferred"] = [[p["name"], ity(ftypes[p["name"]])] for p in params
                             if p["ty"] == "none" and p["default"] is not None and p["name"] in ftypes
-                            and p["name"] not in overridden]
+                            and p["name"] not in overridden and not p.get("cann")]
+        # the field of an annotated parameter carries the parameter's annotation (for an un-annotated one: the class-level one)
+        base["ftype_ok"], base["ftype_seen"] = [], {}
+        for p in params:
+            want_src = TYPES[p["ty"]][0] or p.get("cann")
+            if want_src and p["name"] in ftypes:
+                base["ftype_ok"].append([p["name"], ftypes[p["name"]] == _ev(ns, want_src)])
+                base["ftype_seen"][p["name"]] = repr(ftypes[p["name"]])[:80]
         reset_simple_parsing_state()
         del log[:]
 
@@ -841,6 +936,10 @@ def _cf_spec(params, sess, obs, check_call=True):
     for n, t in obs["inferred"]:
         if t != _spec_ity(kinds[n]):
             return f"inferred type of the un-annotated parameter {n}={pnames[n]['default']} is {t}, its default is a {kinds[n]}"
+    for n, ok in obs.get("ftype_ok", []):
+        if not ok:
+            return (f"field {n} has type {obs.get('ftype_seen', {}).get(n)}, the parameter is annotated "
+                    f"{TYPES[pnames[n]['ty']][0] or pnames[n].get('cann')}")
     if not check_call:
         return None
     if exp[0] != "ok":
@@ -894,6 +993,8 @@ def signature(case, obs, reason):
             return "partial:wrong-fields"
     if reason.startswith("inferred type"):
         return f"{tag}:wrong-inferred-type"
+    if "the parameter is annotated" in reason:
+        return f"{tag}:field-type-is-not-the-parameter-annotation"
     if "two different classes" in reason:
         lists = any(r["ignore"][0] == "list" for r in case.get("session", []))
         return f"{tag}-uncached:" + ("unhashable-ignore_args" if lists else "hashable-args")
@@ -935,6 +1036,10 @@ def features(case, obs):
         for k, via in case["steps"]:
             f["via_" + via] = True
     if case["mode"] == "cf":
+        f["target"] = "class" if case.get("klass") else "function"
+        for p in params:
+            if p.get("cann_kind"):
+                f["class_annotation_" + p["cann_kind"]] = True
         f["ignore_form"] = case["session"][0]["ignore"][0]
         f["call_site_kwargs"] = len(case["call_kw"])
     return f
@@ -979,7 +1084,8 @@ def _params_coq(params, defaults):
     ps = []
     for p in params:
         d = defaults.get(p["name"])
-        ps.append(f"mkparam {cstr(p['name'])} {KIND_COQ[p['kind']]} {ANN_COQ[p['ty']]} {copt(cstr(d)) if d is not None else 'None'} "
+        ann = CANN_TAG[p["cann"]] if (p["ty"] == "none" and p.get("cann")) else ANN_COQ[p["ty"]]
+        ps.append(f"mkparam {cstr(p['name'])} {KIND_COQ[p['kind']]} {ann} {copt(cstr(d)) if d is not None else 'None'} "
                   f"{cbool(p['mut'])}")
     return ps
 
@@ -1008,11 +1114,11 @@ def to_coq(case, obs):
         else:
             flds = outcome(obs["fields"])
     untyped = clist([cpair(cstr(p["name"]), _cdkind(_dkind(p["default"]))) for p in case["params"]
-                     if case["mode"] == "cf" and p["ty"] == "none" and p["default"] is not None])
+                     if case["mode"] == "cf" and p["ty"] == "none" and p["default"] is not None and not p.get("cann")])
     inferred = clist([cpair(cstr(n), _city(t)) for n, t in obs.get("inferred", [])])
     return (f"mkcase {cbool(case['mode'] == 'main')} {clist(ps)} {_res_bind(obs['expected'])} "
             f"{clist([cstr(v) for v in obs['xpos']])} {_kv(obs['xkw'])} {reqs} {sess} {flds} {call} {_res_bind(obs['result'])} "
-            f"{untyped} {inferred} {pair}")
+            f"{untyped} {inferred} {pair} {clist([cpair(cstr(n), cbool(b)) for n, b in obs.get('ftype_ok', [])])}")
 
 
 def shrink(case):
